@@ -398,6 +398,10 @@ def scenario_job(athlib, scn, sched_seeds, opts):
     programs = scn['programs']
     accepted, traces, wlines, norders = oracle(athlib, programs)
     solo_steps = sum(len(t) for t in traces)
+    exec_lines = set()
+    for t in traces:
+        for (f, l) in t:
+            exec_lines.add('%s:%d' % (os.path.relpath(f, common.ATHLIB_DIR), l))
     step_cap = max(300000, 30 * solo_steps)
     cnt = Counter()
     cnt.inc('oracle_orders', norders)
@@ -442,7 +446,7 @@ def scenario_job(athlib, scn, sched_seeds, opts):
             samples.append({'scenario': scn, 'schedule': spec, 'switches': res['switches'],
                             'outcomes': res['out'], 'steps': res['steps']})
     return {'cnt': cnt, 'sigs': sigs, 'sigs_nt': sigs_nt, 'violations': violations, 'samples': samples,
-            'fnsw': fnsw}
+            'fnsw': fnsw, 'exec_lines': exec_lines}
 
 
 def run_one(athlib, programs, spec, step_cap, wall_cap=40.0):
@@ -546,7 +550,8 @@ def worker(master, n_scn, k, opts):
     def w(wi, nw):
         athlib, nlocks = prepare_athlib()
         agg = {'cnt': Counter(), 'sigs': set(), 'sigs_nt': set(), 'violations': [], 'samples': [],
-               'fnsw': Counter(), 'by_group': Counter(), 'by_variant': Counter(), 'harness_errors': []}
+               'fnsw': Counter(), 'by_group': Counter(), 'by_variant': Counter(), 'harness_errors': [],
+               'exec_lines': set()}
         agg['cnt'].inc('lock_seam_rebound', nlocks if wi == 0 else 0)
         t0 = time.monotonic()
         budget = opts.get('budget_s')
@@ -569,6 +574,7 @@ def worker(master, n_scn, k, opts):
             agg['cnt'].merge(r['cnt']); agg['cnt'].inc('scenarios')
             agg['sigs'] |= r['sigs']; agg['sigs_nt'] |= r['sigs_nt']
             agg['fnsw'].merge(r['fnsw'])
+            agg['exec_lines'] |= r['exec_lines']
             agg['by_group'].inc(scn['group']); agg['by_variant'].inc(scn['variant'])
             for v in r['violations']:
                 v['scenario_index'] = idx
@@ -654,8 +660,9 @@ def main(tier_, replay=None):
     nw = common.ncpu()
     parts = common.run_pool(worker(master, cfg['scenarios'], cfg['k'], opts), nw, wall_cap=cfg['wall'])
     cnt = Counter(); fnsw = Counter(); byg = Counter(); byv = Counter()
-    sigs = set(); sigs_nt = set(); viols = []; samples = []; herr = []
+    sigs = set(); sigs_nt = set(); viols = []; samples = []; herr = []; exec_lines = set()
     for p in parts:
+        exec_lines |= p['exec_lines']
         cnt.merge(p['cnt']); fnsw.merge(p['fnsw']); byg.merge(p['by_group']); byv.merge(p['by_variant'])
         sigs |= p['sigs']; sigs_nt |= p['sigs_nt']; viols += p['violations']; samples += p['samples']
         herr += p['harness_errors']
@@ -701,7 +708,10 @@ def main(tier_, replay=None):
                          'cooperative_lock_blocks': cnt.get('lock_blocks', 0)},
         'samplers': {s: cnt.get('sampler_' + s, 0) for s in SAMPLERS},
         'probes_switch_sites_top': dict(top),
-        'probes': {'distinct_switch_sites': len(fnsw)},
+        'probes': {'distinct_switch_sites': len(fnsw),
+                   'athlib_lines_executed_by_the_calls': len(exec_lines),
+                   'athlib_lines_where_a_switch_landed': len([k for k in fnsw if k in exec_lines]),
+                   'executed_lines_never_switched_at': sorted(exec_lines - set(fnsw))[:40]},
         'run_status': {k[7:]: v for k, v in cnt.items() if k.startswith('status_')},
         'skipped_unschedulable': cnt.get('skipped_unschedulable', 0),
         'oracle_sequential_runs': cnt.get('oracle_orders', 0),
